@@ -1072,7 +1072,8 @@ class OdeSystem(object):
                             total_steps = self.__alloc_space_steps(tf - dTime) + 1 + len(roots)
                             self.__allocate_soln_space(total_steps)
 
-                        for ev_idx, (root, ev) in enumerate(zip(roots, evs)):
+                        # last_occurrence is indexed by the event's position in `events`, not by its position among the events active in this step
+                        for ev_idx, root, ev in zip(active_events, roots, evs):
                             if dTime >= 0:
                                 true_positive = (self.__t[self.counter] <= root) & (root <= prev_time + dTime)
                             else:
